@@ -419,8 +419,19 @@ class Program:
             elif isinstance(c, SymPiece):
                 raise Unsupported('byte length of text with a formatted symbolic integer')
             else:
-                t = z3.If(z3.ULT(c, 0x80), z3.BitVecVal(1, 64), z3.If(z3.ULT(c, 0x800), z3.BitVecVal(2, 64), z3.If(z3.ULT(c, 0x10000), z3.BitVecVal(3, 64), z3.BitVecVal(4, 64))))
-                sym = t if sym is None else sym + t
-        if sym is None:
-            return n
-        return z3.simplify(sym + n)
+                n += s.char_width(ex, c)
+        return n
+
+    def char_width(s, ex, c):
+        """UTF-8 width of a symbolic char: decided by forking over the four width classes (cached per path)"""
+        import z3
+        cache = ex.env.setdefault('char_width', {})
+        k = c.get_id()
+        if k in cache:
+            return cache[k]
+        from .execu import simp_bool
+        conds = [simp_bool(z3.ULT(c, 0x80)), simp_bool(z3.And(z3.UGE(c, 0x80), z3.ULT(c, 0x800))),
+                 simp_bool(z3.And(z3.UGE(c, 0x800), z3.ULT(c, 0x10000))), simp_bool(z3.UGE(c, 0x10000))]
+        w = ex.choose(conds) + 1
+        cache[k] = w
+        return w
